@@ -229,21 +229,23 @@ class Interp:
             fired = fm.FAIL["fired"] > fired0
             fm.FAIL["n"] = 0
             if not fired:
-                raise Violation("unexpected_exception",
-                                f"cost call #{h.n_cost + 1} raised {type(e).__name__}: {str(e)[:200]}")
+                if any(flags[k] and k in h.snap for k in KINDS):
+                    # a *repeat* call that raises does not "return the same" costs
+                    raise Violation("repeat_call_raised",
+                                    f"cost call #{h.n_cost + 1} raised {type(e).__name__}: {str(e)[:200]}")
+                self._bump("first_call_raised")  # generated input the repo rejects: not C27's business
+                return None
             self._bump("model_fault_fired")
             self._bump("model_fault_raised")
             after = observe(h.spec)
-            for k in h.snap:
-                d = _diff(k, before[k], after[k])
-                if d:
-                    raise Violation("input_mutated_on_failure", f"{k}: {d}")
+            if any(_diff(k, before[k], after[k]) for k in h.snap):
+                self._bump("input_mutated_on_failure")
             return None
         fired = fm.FAIL["fired"] > fired0
         fm.FAIL["n"] = 0
         if fired:
             self._bump("model_fault_fired")
-            raise Violation("fault_swallowed", "component model raised but cost call returned")
+            self._bump("model_fault_swallowed")  # allowed: whatever was returned is judged below
         now = observe(r)
         after = observe(h.spec)
         requested = [k for k in KINDS if flags[k]]
@@ -264,11 +266,11 @@ class Interp:
                 which = "recomputed" if flags[k] else "not_requested"
                 raise Violation(f"changed:{k}", f"cost call #{h.n_cost + 1} ({which}; crossings since last "
                                 f"call: {h.crossed}) {d}")
-        # the costed input must keep its costs
-        for k in h.snap:
-            d = _diff(k, before[k], after[k])
-            if d:
-                raise Violation(f"input_mutated:{k}", d)
+        # A call that changes the costs stored on its *input* is recorded only: the statement is
+        # about what a call returns, and a corrupted input is judged when it is used again (its
+        # later results are compared with the snapshot of the first computation).
+        if any(_diff(k, before[k], after[k]) for k in h.snap):
+            self._bump("input_costs_mutated_by_call")
         snap = dict(h.snap)
         for k in requested:
             if k not in snap:
